@@ -5,20 +5,20 @@ package vatomic
 
 import "github.com/avos-io/goat/vrt/vsched"
 
-func AddUint64(p *uint64, d uint64) uint64 { vsched.Yield("atomic"); *p += d; return *p }
-func AddInt64(p *int64, d int64) int64     { vsched.Yield("atomic"); *p += d; return *p }
-func AddUint32(p *uint32, d uint32) uint32 { vsched.Yield("atomic"); *p += d; return *p }
-func AddInt32(p *int32, d int32) int32     { vsched.Yield("atomic"); *p += d; return *p }
-func LoadUint64(p *uint64) uint64          { vsched.Yield("atomic"); return *p }
-func LoadInt64(p *int64) int64             { vsched.Yield("atomic"); return *p }
-func LoadUint32(p *uint32) uint32          { vsched.Yield("atomic"); return *p }
-func LoadInt32(p *int32) int32             { vsched.Yield("atomic"); return *p }
-func StoreUint64(p *uint64, v uint64)      { vsched.Yield("atomic"); *p = v }
-func StoreInt64(p *int64, v int64)         { vsched.Yield("atomic"); *p = v }
-func StoreUint32(p *uint32, v uint32)      { vsched.Yield("atomic"); *p = v }
-func StoreInt32(p *int32, v int32)         { vsched.Yield("atomic"); *p = v }
+func AddUint64(p *uint64, d uint64) uint64 { vsched.YieldSkip("atomic", 1); *p += d; return *p }
+func AddInt64(p *int64, d int64) int64     { vsched.YieldSkip("atomic", 1); *p += d; return *p }
+func AddUint32(p *uint32, d uint32) uint32 { vsched.YieldSkip("atomic", 1); *p += d; return *p }
+func AddInt32(p *int32, d int32) int32     { vsched.YieldSkip("atomic", 1); *p += d; return *p }
+func LoadUint64(p *uint64) uint64          { vsched.YieldSkip("atomic", 1); return *p }
+func LoadInt64(p *int64) int64             { vsched.YieldSkip("atomic", 1); return *p }
+func LoadUint32(p *uint32) uint32          { vsched.YieldSkip("atomic", 1); return *p }
+func LoadInt32(p *int32) int32             { vsched.YieldSkip("atomic", 1); return *p }
+func StoreUint64(p *uint64, v uint64)      { vsched.YieldSkip("atomic", 1); *p = v }
+func StoreInt64(p *int64, v int64)         { vsched.YieldSkip("atomic", 1); *p = v }
+func StoreUint32(p *uint32, v uint32)      { vsched.YieldSkip("atomic", 1); *p = v }
+func StoreInt32(p *int32, v int32)         { vsched.YieldSkip("atomic", 1); *p = v }
 func CompareAndSwapUint64(p *uint64, o, n uint64) bool {
-	vsched.Yield("atomic")
+	vsched.YieldSkip("atomic", 1)
 	if *p == o {
 		*p = n
 		return true
@@ -26,7 +26,7 @@ func CompareAndSwapUint64(p *uint64, o, n uint64) bool {
 	return false
 }
 func CompareAndSwapInt64(p *int64, o, n int64) bool {
-	vsched.Yield("atomic")
+	vsched.YieldSkip("atomic", 1)
 	if *p == o {
 		*p = n
 		return true
@@ -34,7 +34,7 @@ func CompareAndSwapInt64(p *int64, o, n int64) bool {
 	return false
 }
 func CompareAndSwapInt32(p *int32, o, n int32) bool {
-	vsched.Yield("atomic")
+	vsched.YieldSkip("atomic", 1)
 	if *p == o {
 		*p = n
 		return true
@@ -42,7 +42,7 @@ func CompareAndSwapInt32(p *int32, o, n int32) bool {
 	return false
 }
 func CompareAndSwapUint32(p *uint32, o, n uint32) bool {
-	vsched.Yield("atomic")
+	vsched.YieldSkip("atomic", 1)
 	if *p == o {
 		*p = n
 		return true
@@ -52,17 +52,17 @@ func CompareAndSwapUint32(p *uint32, o, n uint32) bool {
 
 type Int64 struct{ v int64 }
 
-func (x *Int64) Load() int64       { vsched.Yield("atomic"); return x.v }
-func (x *Int64) Store(v int64)     { vsched.Yield("atomic"); x.v = v }
-func (x *Int64) Add(d int64) int64 { vsched.Yield("atomic"); x.v += d; return x.v }
+func (x *Int64) Load() int64       { vsched.YieldSkip("atomic", 1); return x.v }
+func (x *Int64) Store(v int64)     { vsched.YieldSkip("atomic", 1); x.v = v }
+func (x *Int64) Add(d int64) int64 { vsched.YieldSkip("atomic", 1); x.v += d; return x.v }
 func (x *Int64) Swap(n int64) int64 {
-	vsched.Yield("atomic")
+	vsched.YieldSkip("atomic", 1)
 	o := x.v
 	x.v = n
 	return o
 }
 func (x *Int64) CompareAndSwap(o, n int64) bool {
-	vsched.Yield("atomic")
+	vsched.YieldSkip("atomic", 1)
 	if x.v == o {
 		x.v = n
 		return true
@@ -72,34 +72,34 @@ func (x *Int64) CompareAndSwap(o, n int64) bool {
 
 type Uint64 struct{ v uint64 }
 
-func (x *Uint64) Load() uint64        { vsched.Yield("atomic"); return x.v }
-func (x *Uint64) Store(v uint64)      { vsched.Yield("atomic"); x.v = v }
-func (x *Uint64) Add(d uint64) uint64 { vsched.Yield("atomic"); x.v += d; return x.v }
+func (x *Uint64) Load() uint64        { vsched.YieldSkip("atomic", 1); return x.v }
+func (x *Uint64) Store(v uint64)      { vsched.YieldSkip("atomic", 1); x.v = v }
+func (x *Uint64) Add(d uint64) uint64 { vsched.YieldSkip("atomic", 1); x.v += d; return x.v }
 
 type Int32 struct{ v int32 }
 
-func (x *Int32) Load() int32       { vsched.Yield("atomic"); return x.v }
-func (x *Int32) Store(v int32)     { vsched.Yield("atomic"); x.v = v }
-func (x *Int32) Add(d int32) int32 { vsched.Yield("atomic"); x.v += d; return x.v }
+func (x *Int32) Load() int32       { vsched.YieldSkip("atomic", 1); return x.v }
+func (x *Int32) Store(v int32)     { vsched.YieldSkip("atomic", 1); x.v = v }
+func (x *Int32) Add(d int32) int32 { vsched.YieldSkip("atomic", 1); x.v += d; return x.v }
 
 type Uint32 struct{ v uint32 }
 
-func (x *Uint32) Load() uint32        { vsched.Yield("atomic"); return x.v }
-func (x *Uint32) Store(v uint32)      { vsched.Yield("atomic"); x.v = v }
-func (x *Uint32) Add(d uint32) uint32 { vsched.Yield("atomic"); x.v += d; return x.v }
+func (x *Uint32) Load() uint32        { vsched.YieldSkip("atomic", 1); return x.v }
+func (x *Uint32) Store(v uint32)      { vsched.YieldSkip("atomic", 1); x.v = v }
+func (x *Uint32) Add(d uint32) uint32 { vsched.YieldSkip("atomic", 1); x.v += d; return x.v }
 
 type Bool struct{ v bool }
 
-func (x *Bool) Load() bool   { vsched.Yield("atomic"); return x.v }
-func (x *Bool) Store(v bool) { vsched.Yield("atomic"); x.v = v }
+func (x *Bool) Load() bool   { vsched.YieldSkip("atomic", 1); return x.v }
+func (x *Bool) Store(v bool) { vsched.YieldSkip("atomic", 1); x.v = v }
 func (x *Bool) Swap(n bool) bool {
-	vsched.Yield("atomic")
+	vsched.YieldSkip("atomic", 1)
 	o := x.v
 	x.v = n
 	return o
 }
 func (x *Bool) CompareAndSwap(o, n bool) bool {
-	vsched.Yield("atomic")
+	vsched.YieldSkip("atomic", 1)
 	if x.v == o {
 		x.v = n
 		return true
@@ -109,10 +109,10 @@ func (x *Bool) CompareAndSwap(o, n bool) bool {
 
 type Value struct{ v any }
 
-func (x *Value) Load() any   { vsched.Yield("atomic"); return x.v }
-func (x *Value) Store(v any) { vsched.Yield("atomic"); x.v = v }
+func (x *Value) Load() any   { vsched.YieldSkip("atomic", 1); return x.v }
+func (x *Value) Store(v any) { vsched.YieldSkip("atomic", 1); x.v = v }
 
 type Pointer[T any] struct{ p *T }
 
-func (x *Pointer[T]) Load() *T   { vsched.Yield("atomic"); return x.p }
-func (x *Pointer[T]) Store(p *T) { vsched.Yield("atomic"); x.p = p }
+func (x *Pointer[T]) Load() *T   { vsched.YieldSkip("atomic", 1); return x.p }
+func (x *Pointer[T]) Store(p *T) { vsched.YieldSkip("atomic", 1); x.p = p }
